@@ -1104,8 +1104,8 @@ Qed.
 
 (* ================================================================== read_multiscale_params *)
 
-Lemma read_params_none steps : forallb (fun s => negb (sc_is_msc s)) steps = true ->
-  read_multiscale_params steps = (1, 1).
+Lemma read_params_none dn dsf steps : forallb (fun s => negb (sc_is_msc s)) steps = true ->
+  read_multiscale_params dn dsf steps = (1, 1).
 Proof.
   intros H. unfold read_multiscale_params.
   assert (E : filter sc_is_msc steps = []).
@@ -1114,9 +1114,8 @@ Proof.
   rewrite E. reflexivity.
 Qed.
 
-Lemma read_params_first pre s post : forallb (fun s => negb (sc_is_msc s)) pre = true -> sc_is_msc s = true ->
-  read_multiscale_params (pre ++ s :: post)
-  = (dflt (sc_num_scales s) PYRAMID_NUM_SCALES, dflt (sc_scale_factor s) PYRAMID_SCALE_FACTOR).
+Lemma read_params_first dn dsf pre s post : forallb (fun s => negb (sc_is_msc s)) pre = true -> sc_is_msc s = true ->
+  read_multiscale_params dn dsf (pre ++ s :: post) = (dflt (sc_num_scales s) dn, dflt (sc_scale_factor s) dsf).
 Proof.
   intros H Hs. unfold read_multiscale_params.
   assert (E : filter sc_is_msc (pre ++ s :: post) = s :: filter sc_is_msc post).
